@@ -223,6 +223,9 @@ pub enum Op {
     Eq(Vec<E>),
     CloneSwap,
     CloneCheck,
+    /// `dst.clone_from(&q)` where `dst` is a clone of `q` (same hasher state) cut down to at most `keep` elements and
+    /// refilled with the pairs; afterwards the queue under test IS `dst` (also when a `Clone` panicked half-way)
+    CloneFrom(u64, Vec<E>),
     /// `(&q).into_iter()` / `(&mut q).into_iter()` instead of `q.iter()` / `q.iter_mut()` for the wrapped `Iter` / `IterMut`
     ViaRef(Box<Op>),
     /// replace the queue by a fresh one built by constructor `ctor` (0 `new`, 1 `with_capacity`, 2 `default`,
@@ -327,6 +330,7 @@ impl Op {
             Eq(_) => "eq",
             CloneSwap => "clone_swap",
             CloneCheck => "clone_check",
+            CloneFrom(..) => "clone_from",
             Crash { .. } => "crash",
             ViaRef(op) => op.name(),
             Fresh(..) => "fresh",
@@ -357,7 +361,8 @@ impl Op {
         use Op::*;
         let n = self.name();
         match self {
-            Crash { cmp, k, op } => format!("!{}{} {}", match *cmp { 1 => "cmp", 0 => "cb", _ => "hk" }, k, op.line()),
+            Crash { cmp, k, op } => format!("!{}{} {}", match *cmp { 1 => "cmp", 0 => "cb", 3 => "cl", _ => "hk" }, k, op.line()),
+            CloneFrom(keep, xs) => format!("{} {} {}", n, keep, es(xs)),
             ViaRef(op) => format!("ref {}", op.line()),
             Fresh(c, cap) => format!("{} {} {}", n, c, cap),
             DeserBad(v, xs) => format!("{} {} {}", n, v, es(xs)),
@@ -392,7 +397,7 @@ impl Op {
         let line = line.trim();
         if let Some(rest) = line.strip_prefix('!') {
             let (head, tail) = rest.split_once(' ').ok_or("bad crash op")?;
-            let (cmp, num) = if let Some(x) = head.strip_prefix("cmp") { (1u8, x) } else if let Some(x) = head.strip_prefix("cb") { (0u8, x) } else if let Some(x) = head.strip_prefix("hk") { (2u8, x) } else { return Err("bad crash prefix".into()) };
+            let (cmp, num) = if let Some(x) = head.strip_prefix("cmp") { (1u8, x) } else if let Some(x) = head.strip_prefix("cb") { (0u8, x) } else if let Some(x) = head.strip_prefix("hk") { (2u8, x) } else if let Some(x) = head.strip_prefix("cl") { (3u8, x) } else { return Err("bad crash prefix".into()) };
             let k: u64 = num.parse().map_err(|e| format!("{:?}", e))?;
             return Ok(Op::Crash { cmp, k, op: Box::new(Op::parse(tail)?) });
         }
@@ -464,6 +469,7 @@ impl Op {
             "eq" => Eq(t.es()?),
             "clone_swap" => CloneSwap,
             "clone_check" => CloneCheck,
+            "clone_from" => CloneFrom(t.u()?, t.es()?),
             "fresh" => Fresh(t.u()? as u8, t.u()?),
             "dbg" => Dbg,
             "deser_unit" => DeserUnit,
@@ -674,6 +680,7 @@ pub fn apply<H: HX>(q: &mut AnyQ<H>, op: &Op, lk: Lookup) -> String {
             match *cmp {
                 1 => FUSE.with(|f| f.set(CMP.with(|c| c.get()) + *k)),
                 0 => CBFUSE.with(|f| f.set(CBCOUNT.with(|c| c.get()) + *k)),
+                3 => CLFUSE.with(|f| f.set(CLCOUNT.with(|c| c.get()) + *k)),
                 _ => HKFUSE.with(|f| f.set(HKCOUNT.with(|c| c.get()) + *k)),
             }
             struct Disarm;
@@ -682,6 +689,7 @@ pub fn apply<H: HX>(q: &mut AnyQ<H>, op: &Op, lk: Lookup) -> String {
                     FUSE.with(|f| f.set(0));
                     CBFUSE.with(|f| f.set(0));
                     HKFUSE.with(|f| f.set(0));
+                    CLFUSE.with(|f| f.set(0));
                 }
             }
             let _d = Disarm;
@@ -1065,6 +1073,30 @@ pub fn apply<H: HX>(q: &mut AnyQ<H>, op: &Op, lk: Lookup) -> String {
             both!(&mut old, x => { x.push(SItem::new(999_999, 1), Pri::new(7)); x.clear(); });
             drop(old);
             CMP.with(|c| c.set(saved));
+            "unit".into()
+        }
+        CloneFrom(keep, xs) => {
+            // building `dst` is not part of the operation under test: armed fuses are suspended meanwhile
+            let (f0, c0) = (FUSE.with(|f| f.replace(0)), cmp_count());
+            let (cf0, cc0) = (CLFUSE.with(|f| f.replace(0)), CLCOUNT.with(|c| c.get()));
+            let mut dst = q.clone_q();
+            while dst.len() as u64 > *keep {
+                match &mut dst { AnyQ::Pq(x) => { x.pop(); } AnyQ::Dpq(x) => { x.pop_max(); } }
+            }
+            for (i, p) in mk(xs) { both!(&mut dst, x => { x.push(i, p); }); }
+            CMP.with(|c| c.set(c0));
+            CLCOUNT.with(|c| c.set(cc0));
+            if f0 != 0 { FUSE.with(|f| f.set(f0)); }
+            if cf0 != 0 { CLFUSE.with(|f| f.set(cf0)); }
+            let r = std::panic::catch_unwind(std::panic::AssertUnwindSafe(|| match (&mut dst, &*q) {
+                (AnyQ::Pq(d), AnyQ::Pq(s)) => d.clone_from(s),
+                (AnyQ::Dpq(d), AnyQ::Dpq(s)) => d.clone_from(s),
+                _ => unreachable!(),
+            }));
+            // the queue under test is `dst` from here on, whatever happened
+            let old = std::mem::replace(q, dst);
+            drop(old);
+            if let Err(p) = r { std::panic::resume_unwind(p); }
             "unit".into()
         }
         CloneCheck => {
